@@ -43,6 +43,11 @@ def check_case(ctx, cs):
         return
     before = [copy.deepcopy(project(e)) for e in elems]
     site = "operations." + op
+    # (a loop over the container / shape left early, as a look-up loop does: iteration state must not leak into the operation)
+    try:
+        next(iter(target))
+    except Exception:
+        pass
     kw = {"inplace": True} if inplace else {}          # (not in place is the documented default: the option is left out)
     try:
         if op == "translate":
